@@ -158,6 +158,14 @@ PROPS["C08"] = dict(
     units=[U("inpkg", "internal/cmds", "TestVerif_C08_CacheIdentity", T(20000), T(200000, shards=16))],
 )
 
+PROPS["C02"] = dict(
+    level="exploration",
+    technique="property-based testing (rapid) of generated timed schedules inside a testing/synctest bubble, directly on the ring and flow-buffer queues, with history invariants (exactly-once, FIFO, own-result) and bubble deadlock detection",
+    level_text="Generated API-level interleavings (every queue call at its own virtual instant, same-instant calls racing) of up to 12 putters with mirrored writer/reader loops, slot counts 2-8 and the ring index forced to wrap; a lost wake-up shows up as a bubble deadlock, which is detected soundly.",
+    level_note="The writer/reader loops mirror pipe._backgroundWrite/_backgroundRead; preemption points inside one queue call are explored only through same-instant races and repetition (plus -race in the thorough tier). No trace hook is needed: every transition is observable from inside the package. " + LIMITS,
+    units=[U("inpkg", "rueidis", "TestVerif_C02_Queue", T(4000), T(20000, shards=16), race=True)],
+)
+
 # ---- END PROPS (new entries go above this line)
 
 # every property without a check is listed here with its reason (kept current while building)
